@@ -188,6 +188,73 @@ struct Pool {
     out_str: Vec<Vec<u8>>,
     in_tags: Vec<String>,
     out_tags: Vec<String>,
+    // hash tags (in range) of string-key groups {tag}a {tag}b {tag}c used by the multi-key commands
+    mk_tags: Vec<String>,
+}
+
+fn gen_mk_tags(topo: &Topo, want: usize) -> Vec<String> {
+    let mut v = vec![];
+    let mut n = 0u64;
+    while v.len() < want && n < 1_000_000 {
+        let t = format!("m{}", n);
+        n += 1;
+        if in_range(topo, t.as_bytes()) {
+            v.push(t);
+        }
+    }
+    v
+}
+
+// multi-key commands on one hash-tag group: EVAL (fake script vocabulary of the stand-in) with and without ARGV, MGET, MSET,
+// multi-key DEL / EXISTS.  Multi-key scripts only read or write; a deleting script has ONE key (see Model/Migrate.v ensured_ok)
+fn gen_mk_op(pool: &Pool, rng: &Rng, cid: u64, n: u64) -> Vec<Vec<u8>> {
+    let t = &pool.mk_tags[rng.below(pool.mk_tags.len() as u64) as usize];
+    let all = [set_key(t, "a"), set_key(t, "b"), set_key(t, "c")];
+    let nk = 2 + rng.below(2) as usize;
+    let keys: Vec<Vec<u8>> = all[..nk].to_vec();
+    let uniq = format!("c{}-{}", cid, n);
+    let with_argv = rng.below(2) == 0;
+    let r = rng.below(100);
+    let mut cmd: Vec<Vec<u8>>;
+    if r < 25 {
+        cmd = vec![b("EVAL"), b(&format!("GETALL:{}", uniq)), b(&nk.to_string())];
+        cmd.extend(keys);
+        if with_argv {
+            cmd.push(b("x"));
+        }
+    } else if r < 50 {
+        let v = format!("e{}-{}", cid, n);
+        if with_argv {
+            cmd = vec![b("EVAL"), b(&format!("SETALL:{}", uniq)), b(&nk.to_string())];
+            cmd.extend(keys);
+            cmd.push(b(&v));
+        } else {
+            cmd = vec![b("EVAL"), b(&format!("SETALL={}:{}", v, uniq)), b(&nk.to_string())];
+            cmd.extend(keys);
+        }
+    } else if r < 60 {
+        cmd = vec![b("EVAL"), b(&format!("DELALL:{}", uniq)), b("1"), all[rng.below(3) as usize].clone()];
+        if with_argv {
+            cmd.push(b("x"));
+        }
+    } else if r < 75 {
+        cmd = vec![b("MGET")];
+        cmd.extend(keys);
+    } else if r < 90 {
+        let v = format!("s{}-{}", cid, n);
+        cmd = vec![b("MSET")];
+        for k in keys {
+            cmd.push(k);
+            cmd.push(b(&v));
+        }
+    } else if r < 95 {
+        cmd = vec![b("DEL")];
+        cmd.extend(keys);
+    } else {
+        cmd = vec![b("EXISTS")];
+        cmd.extend(keys);
+    }
+    cmd
 }
 
 fn in_range(topo: &Topo, key: &[u8]) -> bool {
@@ -201,6 +268,7 @@ fn build_pool(topo: &Topo, nkeys: usize, nout: usize, sets: bool) -> Pool {
         out_str: vec![],
         in_tags: vec![],
         out_tags: vec![],
+        mk_tags: vec![],
     };
     let mut n = 0u64;
     while (p.in_str.len() < nkeys || p.out_str.len() < nout) && n < 10_000_000 {
@@ -264,6 +332,9 @@ fn b(s: &str) -> Vec<u8> {
 }
 
 fn gen_op(pool: &Pool, rng: &Rng, sets: bool, cid: u64, n: u64) -> Vec<Vec<u8>> {
+    if !pool.mk_tags.is_empty() && rng.below(100) < 25 {
+        return gen_mk_op(pool, rng, cid, n);
+    }
     let r = rng.below(100);
     if !sets || pool.in_tags.is_empty() {
         // GET 45 / SET 35 / DEL 15 / APPEND 5
@@ -419,10 +490,20 @@ pub fn run_mig(params: &Params) -> String {
         parts: 1,
         ndst: 1,
     };
-    let pool = Arc::new(build_pool(&topo, nkeys, nout, sets));
+    let mut pool = build_pool(&topo, nkeys, nout, sets);
     if pool.in_str.len() < nkeys || pool.out_str.len() < nout {
         return "mig setup-error key-pool".to_string();
     }
+    if params.u64("mk", 0) != 0 {
+        // multi-key commands: string-key groups under one hash tag; the keys also take part in the single-key traffic
+        pool.mk_tags = gen_mk_tags(&topo, std::cmp::max(3, nkeys / 8));
+        for t in pool.mk_tags.clone() {
+            for sfx in ["a", "b", "c"] {
+                pool.in_str.push(set_key(&t, sfx));
+            }
+        }
+    }
+    let pool = Arc::new(pool);
     let setkeys = pool.set_keys();
     let mut inkeys: Vec<Vec<u8>> = pool.in_str.clone();
     let mut outkeys: Vec<Vec<u8>> = pool.out_str.clone();
@@ -1235,5 +1316,205 @@ pub fn run_multi(params: &Params) -> String {
         Err(_) => format!("multi timeout {}", tail),
         Ok(Err(msg)) => format!("multi setup-error {} {}", msg, tail),
         Ok(Ok(())) => format!("multi ok {}", tail),
+    }
+}
+
+// ---------- directed: multi-key commands through the importing proxy while every key is still on the source ----------
+pub fn run_mkey(params: &Params) -> String {
+    use crate::net::Gate;
+    let conns = params.u64("conns", 1).max(1).min(8) as usize;
+    let active = params.u64("active", 0) != 0;
+    let absent = params.u64("absent", 0) != 0;
+    let out = params.str("out", "");
+    let timeout_ms = params.u64("timeout_ms", 60_000);
+    if out.is_empty() {
+        return "mkey setup-error missing-out".to_string();
+    }
+    let topo = Topo {
+        lo: 0,
+        hi: 8191,
+        scan_count: params.u64("scan_count", 10).max(1),
+        scan_interval: params.u64("scan_interval", 500),
+        parts: 1,
+        ndst: 1,
+    };
+    // (verb/command, number of keys, trailing ARGV)
+    let specs: Vec<(&str, usize, bool)> = vec![
+        ("DELALL", 1, false),
+        ("DELALL", 1, true),
+        ("DELALL", 2, false),
+        ("DELALL", 2, true),
+        ("DELALL", 3, false),
+        ("DELALL", 3, true),
+        ("GETALL", 2, false),
+        ("GETALL", 2, true),
+        ("GETALL", 3, false),
+        ("GETALL", 3, true),
+        ("SETALL", 2, false),
+        ("SETALL", 2, true),
+        ("SETALL", 3, false),
+        ("SETALL", 3, true),
+        ("DEL", 3, false),
+        ("DEL", 2, false),
+        ("EXISTS", 2, false),
+        ("MGET", 3, false),
+        ("MSET", 2, false),
+    ];
+    let tags = gen_mk_tags(&topo, specs.len());
+    let sfx = ["a", "b", "c"];
+    let mut inkeys: Vec<Vec<u8>> = vec![];
+    for t in tags.iter() {
+        for s in sfx.iter() {
+            inkeys.push(set_key(t, s));
+        }
+    }
+    let pool = build_pool(&topo, 6, 0, false);
+    inkeys.extend(pool.in_str.iter().cloned());
+    let meta = meta_json(0, params, &topo, &inkeys, &[], &[]);
+    let world = World::new(0, 0, false, params.u64("buckets", crate::store::DEFAULT_SCAN_BUCKETS), None);
+    let gate = Gate::new(0, 0, "SCAN", vec![], Duration::from_secs(15));
+    world.gates.lock().push(gate.clone());
+    let sh = Shared::new();
+    let rt = new_runtime();
+    let result: Arc<parking_lot::Mutex<(Vec<String>, u64)>> = Arc::new(parking_lot::Mutex::new((vec![], 0)));
+
+    let scenario = {
+        let world = world.clone();
+        let sh = sh.clone();
+        let result = result.clone();
+        let tags = tags.clone();
+        let specs = specs.clone();
+        let inkeys = inkeys.clone();
+        let gate = gate.clone();
+        async move {
+            new_proxy(&world, 0, conns, active);
+            new_proxy(&world, 1, conns, active);
+            for p in 0..2 {
+                let r = deliver_logged(&world, &topo, p, 1).await;
+                if r != "S 4f4b" {
+                    return Err(format!("epoch1-{}-{}", PROXY_NAME[p], r.replace(' ', "_")));
+                }
+            }
+            for (i, k) in inkeys.iter().enumerate() {
+                // with absent=1 every group's key `b` does not exist
+                if absent && k.ends_with(b"}b") && i % 2 == 1 {
+                    continue;
+                }
+                let mut v = b"init-".to_vec();
+                v.extend_from_slice(k);
+                preload(&world, vec![b("SET"), k.clone(), v]);
+            }
+            let poll = tokio::spawn(poller(world.clone(), sh.clone()));
+            sh.epoch2_delivered.store(true, Ordering::SeqCst);
+            for p in [1usize, 0usize] {
+                let r = deliver_logged(&world, &topo, p, 2).await;
+                if r != "S 4f4b" {
+                    return Err(format!("epoch2-{}-{}", PROXY_NAME[p], r.replace(' ', "_")));
+                }
+            }
+            let start = std::time::Instant::now();
+            while !gate.holding.load(Ordering::SeqCst) && start.elapsed() < Duration::from_secs(20) {
+                tokio::time::sleep(Duration::from_millis(1)).await;
+            }
+            // every multi-key command through the IMPORTING proxy, then its keys are read back
+            for (i, (verb, nk, argv)) in specs.iter().enumerate() {
+                let t = &tags[i];
+                let keys: Vec<Vec<u8>> = sfx[..*nk].iter().map(|s| set_key(t, s)).collect();
+                let uniq = format!("d{}", i);
+                let val = format!("w{}", i);
+                let mut cmd: Vec<Vec<u8>> = match *verb {
+                    "DELALL" | "GETALL" => {
+                        let mut c = vec![b("EVAL"), b(&format!("{}:{}", verb, uniq)), b(&nk.to_string())];
+                        c.extend(keys.clone());
+                        if *argv {
+                            c.push(b("x"));
+                        }
+                        c
+                    }
+                    "SETALL" => {
+                        if *argv {
+                            let mut c = vec![b("EVAL"), b(&format!("SETALL:{}", uniq)), b(&nk.to_string())];
+                            c.extend(keys.clone());
+                            c.push(b(&val));
+                            c
+                        } else {
+                            let mut c = vec![b("EVAL"), b(&format!("SETALL={}:{}", val, uniq)), b(&nk.to_string())];
+                            c.extend(keys.clone());
+                            c
+                        }
+                    }
+                    "MSET" => {
+                        let mut c = vec![b("MSET")];
+                        for k in keys.iter() {
+                            c.push(k.clone());
+                            c.push(b(&val));
+                        }
+                        c
+                    }
+                    other => {
+                        let mut c = vec![b(other)];
+                        c.extend(keys.clone());
+                        c
+                    }
+                };
+                if cmd.is_empty() {
+                    cmd = vec![b("PING")];
+                }
+                let (r, _) = client_op(&world, &sh, 1, cmd, 1, Duration::from_secs(10)).await;
+                result.lock().0.push(resp_to_string(&r));
+                for s in sfx.iter() {
+                    let k = set_key(t, s);
+                    let (r, _) = client_op(&world, &sh, 1, vec![b("GET"), k.clone()], 1, Duration::from_secs(10)).await;
+                    let deleted = (*verb == "DELALL" || *verb == "DEL") && keys.contains(&k);
+                    if deleted && resp_to_string(&r) != "BN" {
+                        result.lock().1 += 1;
+                    }
+                }
+            }
+            gate.release();
+            wait_switch_committed(&sh).await;
+            for k in inkeys.iter() {
+                client_op(&world, &sh, 2, vec![b("GET"), k.clone()], 1, Duration::from_secs(10)).await;
+            }
+            for p in [1usize, 0usize] {
+                deliver_logged(&world, &topo, p, 3).await;
+            }
+            sh.commit_done.store(true, Ordering::SeqCst);
+            for k in inkeys.iter() {
+                client_op(&world, &sh, 3, vec![b("GET"), k.clone()], 1, Duration::from_secs(10)).await;
+            }
+            tokio::time::sleep(Duration::from_millis(50)).await;
+            sh.stop_poller.store(true, Ordering::SeqCst);
+            let _ = poll.await;
+            log_final(&world);
+            Ok(())
+        }
+    };
+    let res = rt.block_on(async { tokio::time::timeout(Duration::from_millis(timeout_ms), scenario).await });
+    sh.stop_poller.store(true, Ordering::SeqCst);
+    gate.disarm();
+    gate.release();
+    if !matches!(res, Ok(Ok(()))) {
+        log_final(&world);
+    }
+    let written = world.write_trace(&out, meta);
+    world.clear_handlers();
+    rt.shutdown_background();
+    if let Err(e) = written {
+        return format!("mkey setup-error trace-write-{}", e.replace(' ', "_"));
+    }
+    let g = result.lock();
+    let tail = format!(
+        "cases={} gate={} replies={} bad_reads={} trace={}",
+        specs.len(),
+        if gate.was_held.load(Ordering::SeqCst) { 1 } else { 0 },
+        g.0.iter().map(|s| s.replace(' ', "_")).collect::<Vec<_>>().join(";"),
+        g.1,
+        out
+    );
+    match res {
+        Err(_) => format!("mkey timeout {}", tail),
+        Ok(Err(msg)) => format!("mkey setup-error {} {}", msg, tail),
+        Ok(Ok(())) => format!("mkey ok {}", tail),
     }
 }
